@@ -2201,6 +2201,7 @@ def normalize_module(tree: ast.Module, extern=None) -> ast.Module:
             n2.inline_local_defs(n)
             n2.next_loops(n)
             n2.counted_while(n)
+            n2.incremental_dicts(n)
             n2.single_use_dicts(n)
             n2.flag_finally(n)
             n2.exitstack_rollback(n)
@@ -2244,6 +2245,9 @@ def normalize_module(tree: ast.Module, extern=None) -> ast.Module:
             break
         # (a second round folds helpers that only became direct calls
         # after a dispatch loop was unrolled)
+    for n in ast.walk(tree):
+        if isinstance(n, ast.FunctionDef):
+            n2.incremental_dicts(n)
     tree = n2.Idioms3().visit(tree)
     for n in ast.walk(tree):
         if isinstance(n, ast.FunctionDef):
